@@ -1,7 +1,7 @@
 From Coq Require Import String.
-From TlsModel Require Import GenBase Show Main GenTls GenKx.
+From TlsModel Require Import GenBase Show Main GenTls GenKx GenExt.
 
-Definition all_families : list (string * G (list case)) := families_tls ++ families_kx.
+Definition all_families : list (string * G (list case)) := families_tls ++ families_kx ++ families_ext.
 
 Fixpoint find_family (name : list byte) (l : list (string * G (list case))) : option (G (list case)) :=
   match l with
